@@ -22,6 +22,9 @@ def main(argv):
     if cmd == "check":
         from . import engine
         return engine.main_check(argv[1:])
+    if cmd == "seed-eval":
+        from . import seed
+        return seed.main(argv[1:])
     if cmd == "selftest":
         from . import selftest
         return selftest.main(argv[1:])
